@@ -736,4 +736,116 @@ Proof.
   destruct (deploy_sim s a [] Hs Hwf Ha (sub_nil a)) as [[_ Hsub] Hok]. split; auto.
 Qed.
 
+(** ** all histories: edits are arbitrary successive source states of [Hist] *)
+
+Fixpoint run_hist (hs : list srcs) (a : arts) : arts :=
+  match hs with
+  | [] => a
+  | s :: r => run_hist r (fst (fst (deploy s a)))
+  end.
+
+Lemma run_hist_inv hs : forall a,
+  (forall s, In s hs -> In s Hist /\ wf_srcs s) -> Inv a -> Inv (run_hist hs a).
+Proof.
+  induction hs as [|s r IH]; intros a Hh Ha; cbn; auto.
+  apply IH.
+  - intros s' Hs'. apply Hh. right. exact Hs'.
+  - destruct (Hh s (or_introl eq_refl)) as [Hs Hwf]. apply deploy_inv; auto.
+Qed.
+
+Theorem deploy_reaches_clean hs a s :
+  (forall s', In s' hs -> In s' Hist /\ wf_srcs s') -> In s Hist -> wf_srcs s -> Inv a ->
+  sub (fst (fst (deploy s []))) (fst (fst (deploy s (run_hist hs a))))
+  /\ snd (deploy s (run_hist hs a)) = snd (deploy s []).
+Proof.
+  intros Hh Hs Hwf Ha. apply redeploy_completes; auto. apply run_hist_inv; auto.
+Qed.
+
+(** ** what a schema's artefacts are built from after its update *)
+
+Lemma compile_packs_frame_gen s dck packs k : forall a,
+  (forall q, In q packs -> KTab q <> k) ->
+  aget (fst (compile_packs s dck packs a)) k = aget a k.
+Proof.
+  induction packs as [|q r IH]; intros a Hk; cbn [Stale.compile_packs]; auto.
+  assert (forall q0, In q0 r -> KTab q0 <> k) as Hr by (intros q0 H0; apply Hk; right; exact H0).
+  assert (KTab q <> k) as Hq by (apply Hk; left; reflexivity).
+  destruct (lookup s (FDict q)) as [v|].
+  2:{ specialize (IH a Hr). destruct (compile_packs s dck r a). exact IH. }
+  destruct (cids_of s (tables_of q (dinfo_of (fv_cid v)))) as [fl|].
+  2:{ specialize (IH a Hr). destruct (compile_packs s dck r a). exact IH. }
+  match goal with |- context [compile_packs s dck r ?X] => specialize (IH X Hr); destruct (compile_packs s dck r X) end.
+  cbn [fst] in *. rewrite IH. destruct (stale_ck _ _); auto. apply aget_aset_other. exact Hq.
+Qed.
+
+Theorem edited_schema_never_stale s x dep a v d vd fl :
+  In s Hist -> Inv a -> lookup s (FRes (RSchema x)) = Some v ->
+  let cy := build_config s (Some x) in
+  let info := info_of (cy_from cy) in
+  si_dict info = Some d -> lookup s (FDict d) = Some vd ->
+  cids_of s (tables_of d (dinfo_of (fv_cid vd))) = Some fl ->
+  let files := fl ++ vocab_cids s (dinfo_of (fv_cid vd)) in
+  let nt := {| t_ck := crc_files 0 files; t_files := files |} in
+  let p := match si_prism info with Some p => p | None => d end in
+  let a' := fst (fst (schema_update s x dep a)) in
+  get_cy a' (KCy (Some x)) = Some cy /\
+  get_tab a' (KRev d) = Some nt /\
+  get_prism a' (KPrism p) = Some {| p_dck := crc_files 0 files; p_sck := cyid cy; p_tab := nt; p_cy := cy |} /\
+  (~ In d (si_packs info) -> get_tab a' (KTab d) = Some nt).
+Proof.
+  intros Hs Ha El cy info Hd Evd Efl files nt p a'.
+  assert (files <> []) as Hf by (apply app_nonempty; eapply cids_of_nonempty; exact Efl).
+  unfold a', Stale.schema_update. rewrite El.
+  pose proof (config_update_post s (Some x) a v Hs Ha El) as Pa.
+  pose proof (config_update_rel s (Some x) a a Hs (conj Ha (sub_refl a))) as [Ha1 _].
+  destruct (config_update s (Some x) a) as [a1 la]. cbn [fst] in *. rewrite Pa.
+  fold cy. fold info. rewrite Hd. fold p.
+  pose proof (compile_frame s d p (si_packs info) cy a1 (Some x)) as Fc.
+  unfold Stale.compile in *. rewrite Evd, Efl in *. fold files in Fc |- *.
+  destruct (compile_core_src s d p (si_packs info) cy files Hf a1 Ha1) as [E1 E2].
+  destruct (compile_core s d p (si_packs info) cy true (crc_files 0 files) files _ a1) as [[a2 l2] ok2].
+  cbn [fst snd] in *. subst a2.
+  split; [|split; [|split]].
+  - unfold get_cy in *. rewrite Fc. exact Pa.
+  - unfold get_tab. rewrite compile_packs_frame_gen by (intros; discriminate).
+    unfold core_nf. rewrite aget_cset_other by discriminate.
+    rewrite aget_cset.
+    + rewrite akey_eqb_refl. reflexivity.
+    + intro H. rewrite aget_cset_other by discriminate. apply rb_t_keep_rev; auto.
+  - unfold get_prism. rewrite compile_packs_frame_gen by (intros; discriminate).
+    unfold core_nf. rewrite aget_cset.
+    + rewrite akey_eqb_refl. reflexivity.
+    + intro H. rewrite !aget_cset_other by discriminate. apply prism_keep; auto.
+  - intro Hnp. unfold get_tab. rewrite compile_packs_frame_gen.
+    + unfold core_nf. rewrite !aget_cset_other by discriminate.
+      rewrite aget_cset by (apply rb_t_keep_tab; auto). rewrite akey_eqb_refl. reflexivity.
+    + intros q Hq E. injection E as ->. contradiction.
+Qed.
+
+(** ** a deployment with no source change: fresh artefacts are kept *)
+
+Theorem noop_deploy_rewrites_nothing_partial s t d p cy files X :
+  In s Hist -> files <> [] ->
+  let dck := crc_files 0 files in
+  let nt := {| t_ck := dck; t_files := files |} in
+  (* a freshly compiled config is not stale *)
+  needs_update s (Some (build_config s t)) = false /\
+  (* fresh table, reverse db and prism are all kept, nothing is written *)
+  (get_tab X (KTab d) = Some nt -> get_tab X (KRev d) = Some nt ->
+   get_prism X (KPrism p) = Some {| p_dck := dck; p_sck := cyid cy; p_tab := nt; p_cy := cy |} ->
+   rb_t_of d files X = false /\ rb_p_of p cy files X = false /\ core_nf d p cy files X = X) /\
+  (* a fresh pack is kept *)
+  (forall q i, get_tab X (KTab q) = Some {| t_ck := crc_files i files; t_files := files |} ->
+               stale_ck (get_tab X (KTab q)) (crc_files i files) = false).
+Proof.
+  intros Hs Hf dck nt. split; [apply fresh_cy_not_stale; exact Hs|]. split.
+  - intros Et Er Ep.
+    assert (rb_t_of d files X = false) as H1.
+    { unfold rb_t_of. rewrite Et, Er. cbn. fold dck. rewrite N.eqb_refl. reflexivity. }
+    assert (rb_p_of p cy files X = false) as H2.
+    { unfold rb_p_of. rewrite Ep. cbn. fold dck. rewrite !N.eqb_refl. reflexivity. }
+    split; auto. split; auto. unfold core_nf. rewrite H1, H2. reflexivity.
+  - intros q i Eq. rewrite Eq. cbn. rewrite N.eqb_refl. reflexivity.
+Qed.
+
 End Proofs.
